@@ -28,6 +28,13 @@ TEMPLATES = [
     ("str", "10 LINE INPUT {v}$", r'INPUT "", (\S+) \\'),
     ("str", "10 DIM {v}$", r"^10 DIM (\S+)$"),
     ("str", "10 ZZ=VARPTR({v}$)", r"ADDR\((\S+)\)$"),
+    ("str", "10 PRINT {v}$", r'^10 PRINT (\S+)$'),
+    ("str", "10 PRINT \"A\";{v}$", r'^10 PRINT "A"; (\S+)$'),
+    ("str", "10 ?{v}$;\"B\"", r'^10 PRINT (\S+); "B"$'),
+    ("str", "10 PRINT@1,{v}$", r'PRINT (\S+)$'),
+    ("str", "10 IF {v}$=\"X\" THEN 10", r'^10 IF (\S+) = "X" THEN 10$'),
+    ("str", "10 ZZ=LEN({v}$)", r'^10 ZZ := LEN\((\S+)\)$'),
+    ("strarray", "10 PRINT {v}$(1)", r'^10 PRINT (\S+)\(1\.0\)$'),
     ("array", "10 {v}(1)=2", r"^10 (\S+)\(1\.0\) := 2\.0$"),
     ("array", "10 ZZ={v}(1,2)", r"^10 ZZ := (\S+)\(1\.0, 2\.0\)$"),
     ("array", "10 DIM {v}(3)", r"^10 DIM (\S+)\(4\)$"),
